@@ -85,6 +85,30 @@ PPL::PIP_Problem::PIP_Problem(const PIP_Problem& y)
   PPL_ASSERT(OK());
 }
 
+void
+PPL::PIP_Problem::m_swap(PIP_Problem& y) {
+  using std::swap;
+  swap(external_space_dim, y.external_space_dim);
+  swap(internal_space_dim, y.internal_space_dim);
+  swap(status, y.status);
+  swap(current_solution, y.current_solution);
+  swap(input_cs, y.input_cs);
+  swap(first_pending_constraint, y.first_pending_constraint);
+  swap(parameters, y.parameters);
+  swap(initial_context, y.initial_context);
+  for (dimension_type i = CONTROL_PARAMETER_NAME_SIZE; i-- > 0; ) {
+    swap(control_parameters[i], y.control_parameters[i]);
+  }
+  swap(big_parameter_dimension, y.big_parameter_dimension);
+  // The solution trees have been exchanged: update their owners.
+  if (current_solution != nullptr) {
+    current_solution->set_owner(this);
+  }
+  if (y.current_solution != nullptr) {
+    y.current_solution->set_owner(&y);
+  }
+}
+
 PPL::PIP_Problem::~PIP_Problem() {
   delete current_solution;
 }
